@@ -11,7 +11,7 @@ from __future__ import annotations
 import numpy as np
 
 from ..model import DSnap, Snap
-from ..attach import StockSnap
+from ..attach import FrameSnap, StockSnap
 from .common import exc_text
 
 M13 = "shape-invariant"
@@ -72,6 +72,8 @@ def same_now(fd, snap, obj):
             return DSnap(obj).same(snap)
         if isinstance(snap, StockSnap):
             return StockSnap(obj).same(snap)
+        if isinstance(snap, FrameSnap):
+            return snap.same_as(obj)
         if isinstance(snap, np.ndarray):
             return isinstance(obj, np.ndarray) and obj.shape == snap.shape and obj.dtype == snap.dtype and obj.tobytes() == snap.tobytes()
         if isinstance(snap, list):
